@@ -19,13 +19,19 @@ CODES = {
     2: ("model", "sequential_phragmen's allocation(s) differ from the Gallina mirror Model/Phragmen.v"),
     3: ("oracle", "a returned allocation is not a feasible duplicate-free superset of the initial allocation"),
     4: ("model", "Gallina model and money process disagree with each other (outside the theorems' hypotheses?)"),
+    5: ("oracle", "refuse_tie_breaking: TieBreakingException although no tie had to be broken, or an outcome was "
+                  "returned although >=2 projects were due together at a purchase"),
+    6: ("model", "refuse_tie_breaking: raise/return differs from the Gallina mirror Model/Phragmen.v"),
+    7: ("oracle", "TieBreakingException under a tie-breaking rule other than refuse_tie_breaking"),
     core.RAISED: ("oracle", "sequential_phragmen raised / the interpreter died"),
 }
 RULE = ("three streams.  (A, 13/16) approval elections, 1..6 voters (ballot copies), 0..7 projects, Profile and MultiProfile (also profiles with "
         "repeated ballots), cost pools with zeros / equal costs / halves and thirds / one project dearer than the budget, "
         "budgets on subset sums and boundaries, party-list elections built so that several projects fall due at the same "
         "moment, initial_loads None / equal / unequal, feasible initial allocations, lexico / app_score / min_cost / "
-        "max_cost tie-breaking and random strict orders, resolute and irresolute.  (B, 1/16) NEAR-TIES: multiprofiles with "
+        "max_cost tie-breaking and random strict orders, resolute and irresolute.  In ~9% of the cases of every stream (more "
+        "in party-list elections) the rule is the shipped refuse_tie_breaking: the call must raise TieBreakingException "
+        "iff some purchase round has >=2 due projects (a round that stops, a near-tie, a single due project must not).  (B, 1/16) NEAR-TIES: multiprofiles with "
         "classes of 10^4..10^5 voters and integer/fractional costs up to 10^11 whose purchase moments differ by a relative "
         "1e-10..1e-16 (the strictly earlier project must win whatever the names, keys, insertion order).  (C, 2/16) "
         "irresolute elections on a path/cycle of voters with equal costs in which tied projects share supporters and the "
@@ -93,6 +99,15 @@ def _budget_for(rng, costs):
 
 
 def gen(rng, i, tier):
+    """see _gen; on top of it the shipped refuse_tie_breaking rule replaces the tie-breaking rule in ~9% of the cases
+    of every stream (the call must raise iff some purchase round has >=2 due projects)"""
+    c = _gen(rng, i, tier)
+    if rng.random() < 0.09:
+        c["tb"] = "refuse"
+    return c
+
+
+def _gen(rng, i, tier):
     """rejection sampling on the python money trace: most cases buy something; a quarter is steered
     towards a stop at which only SOME of the due projects overshoot (the stop rule under ties);
     plus two dedicated streams: NEAR-TIES (city-sized multiprofiles whose purchase moments differ by a
@@ -288,6 +303,8 @@ def _draw(rng, shape=None):
     rng.shuffle(key)
     order = list(range(m))
     rng.shuffle(order)
+    if shape == "party" and rng.random() < 0.08:
+        tb = "refuse"
     return {"costs": costs, "budget": pb.qs(b), "ballots": ballots, "multi": multi, "loads": loads,
             "init": sorted(init), "tb": tb, "key": key, "resolute": resolute, "order": order}
 
@@ -307,6 +324,8 @@ def _tie_breaking(case):
         return T.min_cost_tie_breaking
     if tb == "max_cost":
         return T.max_cost_tie_breaking
+    if tb == "refuse":
+        return T.refuse_tie_breaking
     key = case["key"]
     return T.TieBreakingRule(lambda inst, prof, proj: key[pb.rank(proj)])
 
@@ -327,13 +346,18 @@ def impl(case):
     loads = None
     if case["loads"] is not None:
         loads = [pb.num(x) for x in case["loads"][:len(classes)]]
-    res = sequential_phragmen(
-        inst, prof,
-        initial_loads=loads,
-        initial_budget_allocation=[projs[j] for j in case["init"]],
-        tie_breaking=_tie_breaking(case),
-        resoluteness=case["resolute"],
-    )
+    from pabutools.tiebreaking import TieBreakingException
+
+    try:
+        res = sequential_phragmen(
+            inst, prof,
+            initial_loads=loads,
+            initial_budget_allocation=[projs[j] for j in case["init"]],
+            tie_breaking=_tie_breaking(case),
+            resoluteness=case["resolute"],
+        )
+    except TieBreakingException:
+        return {"classes": classes, "out": [], "raised": True}
     if case["resolute"]:
         out = [pb.ranks(res)]
     else:
@@ -349,13 +373,14 @@ def _loads(case, o):
 
 
 def coq_case(case, o):
-    tbn = TBS.index(case["tb"])
+    refuse = case["tb"] == "refuse"
+    tbn = 0 if refuse else TBS.index(case["tb"])
     key = [Fraction(k) for k in case["key"]] if case["tb"] == "custom" else []
-    return "(mkCase %s %s %s %s %s %s %s %s %s)" % (
+    return "(mkCase %s %s %s %s %s %s %s %s %s %s %s)" % (
         core.qlist(case["costs"]), q(case["budget"]),
         lst([pair(natl(s), core.nat(k)) for s, k in o["classes"]]),
         core.qlist(_loads(case, o)), natl(case["init"]), core.nat(tbn), core.qlist(key),
-        boolc(case["resolute"]), lst([natl(W) for W in o["out"]]))
+        boolc(case["resolute"]), lst([natl(W) for W in o["out"]]), boolc(refuse), boolc(bool(o.get("raised"))))
 
 
 # ----------------------------------------------------------------------------------------------
@@ -363,7 +388,7 @@ def coq_case(case, o):
 # ----------------------------------------------------------------------------------------------
 def _key(case, costs, nsupp):
     tb = case["tb"]
-    if tb == "lexico":
+    if tb in ("lexico", "refuse"):     # refuse: the key is never used (the process ends at the first tie)
         return lambda p: p
     if tb == "app_score":
         return lambda p: -nsupp[p]
@@ -393,7 +418,7 @@ def money(case, classes, loads):
     rem0 = [p for p in range(m) if p not in init and costs[p] <= B]
     tr = {"rounds": 0, "tie": 0, "stop": 0, "stop_mixed": 0, "stop_first_fits": 0, "tail": 0, "backwards": 0,
           "dear": int(any(costs[p] > B for p in range(m))), "bought": 0, "tail_stop": 0, "debt": 0,
-          "near_tie": 0, "near_tie_worse_preferred": 0, "memo_loses": 0}
+          "near_tie": 0, "near_tie_worse_preferred": 0, "memo_loses": 0, "tie_broken": 0}
     outs = set()
     outs_memo = set()       # what an exploration that memoises on the SELECTION (not the loads) would return
     seen = set()
@@ -443,6 +468,10 @@ def money(case, classes, loads):
             if memo_alive:
                 outs_memo.add(frozenset(alloc))
             return
+        if len(due) >= 2:
+            tr["tie_broken"] += 1          # a purchase round with >=2 due projects: tie-breaking is consulted
+            if case["tb"] == "refuse":
+                return
         for k, p in enumerate(order if not case["resolute"] else order[:1]):
             if t is None:
                 nb, nn = bal, now
@@ -468,7 +497,14 @@ def money(case, classes, loads):
 def py_oracle(case, o):
     if not isinstance(o, dict) or "out" not in o:
         return None
-    outs, _ = money(case, o["classes"], _loads(case, o))
+    outs, tr = money(case, o["classes"], _loads(case, o))
+    if case["tb"] == "refuse":
+        if bool(o.get("raised")) != bool(tr["tie_broken"]):
+            return 5
+        if o.get("raised"):
+            return None
+    elif o.get("raised"):
+        return 7
     got = set(frozenset(W) for W in o["out"])
     return 1 if got != outs else None
 
@@ -493,6 +529,8 @@ def stats(cases, obs):
          "clock_went_backwards": 0, "some_voter_in_debt": 0, "nothing_bought": 0,
          "class_with_multiplicity_ge_10000": 0, "near_tie_below_1e-9_relative": 0,
          "near_tie_and_tb_prefers_the_later_project": 0, "irresolute_order_changes_loads_and_outcomes": 0,
+         "refuse_tie_breaking": 0, "refuse_raised": 0, "refuse_returned_after_purchases": 0,
+         "refuse_stop_round_with_ge2_due_no_raise": 0, "refuse_near_tie_no_raise": 0,
          "tb_hist": {}, "nproj_hist": {}, "nvoter_copies_hist": {}, "rounds_hist": {}}
     for c, o in zip(cases, obs):
         if not isinstance(o, dict) or "out" not in o:
@@ -509,6 +547,12 @@ def stats(cases, obs):
         d["initial_alloc_nonempty"] += bool(c["init"])
         d["irresolute"] += not c["resolute"]
         d["irresolute_with_ge2_outcomes"] += (not c["resolute"]) and len(o["out"]) >= 2
+        if c["tb"] == "refuse":
+            d["refuse_tie_breaking"] += 1
+            d["refuse_raised"] += bool(o.get("raised"))
+            d["refuse_returned_after_purchases"] += (not o.get("raised")) and tr["bought"] > 0
+            d["refuse_stop_round_with_ge2_due_no_raise"] += (not o.get("raised")) and tr["tie"] > 0
+            d["refuse_near_tie_no_raise"] += (not o.get("raised")) and tr["near_tie"] > 0
         cs = [pb.F(x) for x in c["costs"]]
         d["fractional_costs"] += any(x.denominator != 1 for x in cs)
         d["has_zero_cost"] += any(x == 0 for x in cs)
